@@ -214,6 +214,32 @@ class NewlineSummary(object):
         return ev
 
 
+def formatter_style_set_rule(ctx, r):
+    """SIBLING rule shared with C09: all arms of create_io hand the application's style set to the formatter they build."""
+    p = ctx.p
+    n = 0
+    for ci in sorted(p.classes.values(), key=lambda c: c.qualname):
+        m = ci.methods.get("create_io")
+        if m is None:
+            continue
+        # the local holding the application's style set
+        ss = {t.id for a in walk_no_nested(m.node) if isinstance(a, ast.Assign) and isinstance(a.value, ast.Attribute) and a.value.attr == "style_set" for t in a.targets if isinstance(t, ast.Name)}
+        for c in q.calls(m):
+            if isinstance(c.func, ast.Name) and c.func.id.endswith("Formatter"):
+                n += 1
+                args = list(c.args) + [k.value for k in c.keywords if k.arg in (None, "style_set")]
+                first = c.args[0] if c.args else next((k.value for k in c.keywords if k.arg == "style_set"), None)
+                given = first is not None and ((isinstance(first, ast.Name) and first.id in ss) or (isinstance(first, ast.Attribute) and first.attr == "style_set"))
+                if given:
+                    r.ok("%s: %s" % (m.short, norm(c)))
+                else:
+                    r.fail(m, c, norm(c), "%s builds a formatter without the application's style set (%s): on that arm the application's own style tags are unknown - "
+                           "they come out as literal markup (or raise) while the other arms render them" % (m.short, norm(c)))
+    if n == 0:
+        r.vacuous_ok = True
+        r.note("no create_io builds formatters directly")
+
+
 def run(ctx):
     p, cg = ctx.p, ctx.cg
     out_cls = ctx.cls("clikit.api.io.output.Output")
@@ -350,6 +376,13 @@ def run(ctx):
             if not adds:
                 r.fail(m, m.node, "%s.%s registers nothing" % (cls.name, mname), "%s.%s does not register the style with the formatter library" % (cls.name, mname))
                 continue
+            if mname == "add_style":
+                # a later style replaces an earlier one of the same tag: the registration is on every path
+                mcfg = ctx.cfg(m)
+                own_adds = {n.id for c in adds for n in mcfg.nodes_of(c)} | {n.id for cs in cg.sites_in(m) for n in mcfg.nodes_of(cs.node) if any(t in scope_fns[1:] for t in cs.targets)}
+                if own_adds and not mcfg.post_dominated_by(mcfg.entry.id, own_adds):
+                    r.fail(m, m.node, "%s.add_style can return without registering" % cls.name, "%s.add_style has a path that returns without registering the style (a test whether the tag is known "
+                           "already, say): a style added later under an existing tag - also a built-in one - keeps the old colours and attributes" % cls.name)
             for c in adds:
                 fields = [norm(a).split(".")[-1] for a in c.args[1:]]
                 if convs and fields == ["foreground", "background", "options"]:
@@ -463,6 +496,11 @@ def run(ctx):
                     r.ok("%s: %s sets the new section's indentation" % (fi.short, norm(c)))
                 else:
                     r.fail(fi, c, norm(c), "%s changes the indentation without a 'with' scope: it is never restored" % fi.short)
+
+    # ---------------------------------------------------------------- R9
+    r = ctx.rule("C11-R9", "SIBLING", "'the markup of a registered style' is known to whichever formatter a run gets: every formatter the I/O factory of the default "
+                 "configuration builds receives the application's style set (all arms: --ansi, --no-ansi, capable / incapable stream, both channels)", reference=6)
+    formatter_style_set_rule(ctx, r)
 
     # ---------------------------------------------------------------- R7
     r = ctx.rule("C11-R7", "ORDER", "indentation is decided on the text as written, before decoration: in the writing method the per-line prefixing "
